@@ -26,6 +26,9 @@ PROFILE = P.profile(p_cutoff=0.4, entry_w={"tree": 8, "hms": 1, "minimize": 1.5}
 
 def gen(seed, tier):
     pl = P.gen_plan(seed, PROFILE, PROP)
+    from .c12 import crossover_only
+
+    crossover_only(pl, seed)
     # a quarter of the multi-stack plans: every level has its own objective (coarse / fine models of one landscape)
     if "stacks" in pl and len(pl["stacks"]) > 1 and seed % 4 == 0:
         import copy
